@@ -908,10 +908,26 @@ static void worker(void)
 		c6_all();
 }
 
+/* the library's allocator, routed through the scheduler: releasing or resizing memory is a step the explorer sees */
+#include "rtrlib/lib/alloc_utils.h"
+static void *sx_realloc(void *p, size_t n)
+{
+	sched_inside();
+	return realloc(p, n);
+}
+
+static void sx_free(void *p)
+{
+	sched_inside();
+	free(p);
+}
+
 int main(int argc, char **argv)
 {
 	v_init(argc, argv, "sched");
 	PROP = v_arg("prop", "C16");
 	SCHED.free_running = v_flag("free");
+	SCHED.inside_points = !v_flag("no-inside-points");
+	lrtr_set_alloc_functions(malloc, sx_realloc, sx_free);
 	return v_main(worker);
 }
